@@ -59,6 +59,15 @@ def c07(payload):
                 bad.append('response is not the sum of the single-source responses (others at 0 V)')
             if np.abs(tot1 - I).max() > tol * np.abs(I).max():
                 bad.append('response is not the sum of the responses of single-source models')
+            # (b') the same superposition on ONE object whose sources are replaced between the runs
+            from mininec.mininec import Excitation
+            mr = gen.build(dict(spec, sources=[])); tot2 = np.zeros(n, dtype=complex)
+            for sk in spec['sources']:
+                mr.sources = []
+                mr.register_source(Excitation(complex(*sk['v'])), sk['pulse'])
+                mr.compute(); tot2 += np.array(mr.current)
+            if np.abs(tot2 - I).max() > tol * np.abs(I).max():
+                bad.append('response is not the sum of the single-source responses computed one after the other on one object')
             # (c) registration order irrelevant
             s5 = copy.deepcopy(spec); s5['sources'].reverse()
             if np.abs(np.array(_solve(s5).current) - I).max() > tol * np.abs(I).max():
